@@ -5,26 +5,33 @@ package iter
 // C43 harness: replays TLC-generated runs of spec/Iter (GenIter) into the real combinators.
 // Every level of the composition (source, each Map/Filter/Limit) is wrapped in a transparent
 // counting iterator, so that the per-level counters of the specification (pulls, closes) can be
-// observed.  Projection (trusted): the counting wrapper; a JSON error result is the value 99.
+// observed.  Every value the outermost iterator hands out is KEPT as handed out (no deep copy, the
+// way a caller collecting results keeps them) and all kept values are compared again with what the
+// specification said they were after every later step (Iter!OutStable).
+// Projection (trusted): the counting wrapper; a JSON error result is the value 99 (ErrVal) resp.
+// {a:99} (ErrDoc); element sorts: plain ints (src slice | json) and, for src jsond, structured
+// documents decoded into c43Doc {a int, b []int, m map[string]int}, projected to "a|b|x,y"
+// (nil and empty slices alike, a missing map key = 0); the rendering of a document as JSON text.
 //   C43_KIND=cases : one line per (layer chain, source) with the canonical drive for every sequence
 //   C43_KIND=sim   : one line per random term with a random Next/Val/Close drive
 
 import (
 	"encoding/json"
 	"fmt"
+	"sort"
 	"strconv"
 	"strings"
 	"testing"
 )
 
-type c43Count struct {
-	inner  Iter[int]
+type c43Count[T any] struct {
+	inner  Iter[T]
 	nexts  int
 	pulls  int
 	closes int
 }
 
-func (c *c43Count) Next() bool {
+func (c *c43Count[T]) Next() bool {
 	c.nexts++
 	ok := c.inner.Next()
 	if ok {
@@ -32,8 +39,8 @@ func (c *c43Count) Next() bool {
 	}
 	return ok
 }
-func (c *c43Count) Val() int { return c.inner.Val() }
-func (c *c43Count) Close() error {
+func (c *c43Count[T]) Val() T { return c.inner.Val() }
+func (c *c43Count[T]) Close() error {
 	c.closes++
 	return c.inner.Close()
 }
@@ -47,18 +54,154 @@ type c43Reader struct {
 func (r *c43Reader) Read(p []byte) (int, error) { return r.r.Read(p) }
 func (r *c43Reader) Close() error               { r.closes++; return nil }
 
-// JSON results as plain ints (an error result is 99 = ErrVal of the specification)
-type c43JSON struct{ inner *JSONIter[int] }
+// JSON results as plain values (an error result is errv = ErrVal / ErrDoc of the specification)
+type c43JSON[T any] struct {
+	inner *JSONIter[T]
+	errv  T
+}
 
-func (j c43JSON) Next() bool { return j.inner.Next() }
-func (j c43JSON) Val() int {
+func (j c43JSON[T]) Next() bool { return j.inner.Next() }
+func (j c43JSON[T]) Val() T {
 	r := j.inner.Val()
 	if r.Err != nil {
-		return 99
+		return j.errv
 	}
 	return r.Val
 }
-func (j c43JSON) Close() error { return j.inner.Close() }
+func (j c43JSON[T]) Close() error { return j.inner.Close() }
+
+// ---- element sorts ---------------------------------------------------------------------------
+
+// structured element: what a document of the specification decodes into
+type c43Doc struct {
+	A int            `json:"a"`
+	B []int          `json:"b"`
+	M map[string]int `json:"m"`
+}
+
+// a document of the specification: null, or an object whose fields are absent | null | val
+type c43FldA struct {
+	K string `json:"k"`
+	V int    `json:"v"`
+}
+type c43FldB struct {
+	K string `json:"k"`
+	V []int  `json:"v"`
+}
+type c43XY struct {
+	X int `json:"x"`
+	Y int `json:"y"`
+}
+type c43FldM struct {
+	K string `json:"k"`
+	V c43XY  `json:"v"`
+}
+type c43SpecDoc struct {
+	Null bool    `json:"null"`
+	A    c43FldA `json:"a"`
+	B    c43FldB `json:"b"`
+	M    c43FldM `json:"m"`
+}
+
+// a value of the specification [a, b, m : [x, y]]
+type c43SpecVal struct {
+	A int   `json:"a"`
+	B []int `json:"b"`
+	M c43XY `json:"m"`
+}
+
+func c43ProjParts(a int, b []int, x, y int, extra string) string {
+	return fmt.Sprintf("{a:%d b:%v m:{x:%d y:%d%s}}", a, append([]int{}, b...), x, y, extra)
+}
+
+// the JSON text of a document
+func (d c43SpecDoc) text() string {
+	if d.Null {
+		return "null"
+	}
+	var f []string
+	switch d.A.K {
+	case "null":
+		f = append(f, `"a":null`)
+	case "val":
+		f = append(f, `"a":`+strconv.Itoa(d.A.V))
+	}
+	switch d.B.K {
+	case "null":
+		f = append(f, `"b":null`)
+	case "val":
+		e := make([]string, len(d.B.V))
+		for i, x := range d.B.V {
+			e[i] = strconv.Itoa(x)
+		}
+		f = append(f, `"b":[`+strings.Join(e, ",")+`]`)
+	}
+	switch d.M.K {
+	case "null":
+		f = append(f, `"m":null`)
+	case "val":
+		var e []string
+		if d.M.V.X != 0 {
+			e = append(e, `"x":`+strconv.Itoa(d.M.V.X))
+		}
+		if d.M.V.Y != 0 {
+			e = append(e, `"y":`+strconv.Itoa(d.M.V.Y))
+		}
+		f = append(f, `"m":{`+strings.Join(e, ",")+`}`)
+	}
+	return "{" + strings.Join(f, ",") + "}"
+}
+
+// what the harness needs to know about an element sort
+type c43Ops[T any] struct {
+	inc, dbl func(T) T
+	key      func(T) int             // the number Filter predicates look at
+	proj     func(T) string          // projection of a real value
+	want     func(json.RawMessage) string // the same projection of a value printed by the specification
+	errv     T
+	text     func(json.RawMessage) string // JSON text of one stream element
+}
+
+var c43IntOps = c43Ops[int]{
+	inc:  func(x int) int { return x + 1 },
+	dbl:  func(x int) int { return 2 * x },
+	key:  func(x int) int { return x },
+	proj: func(x int) string { return strconv.Itoa(x) },
+	want: func(m json.RawMessage) string { return strconv.Itoa(c43Int(m)) },
+	errv: 99,
+	text: func(m json.RawMessage) string { return strconv.Itoa(c43Int(m)) },
+}
+
+var c43DocOps = c43Ops[c43Doc]{
+	inc: func(d c43Doc) c43Doc { d.A++; return d },
+	dbl: func(d c43Doc) c43Doc { d.A *= 2; return d },
+	key: func(d c43Doc) int { return d.A },
+	proj: func(d c43Doc) string {
+		var extra []string
+		for k, v := range d.M {
+			if k != "x" && k != "y" {
+				extra = append(extra, fmt.Sprintf(" %s:%d", k, v))
+			}
+		}
+		sort.Strings(extra)
+		return c43ProjParts(d.A, d.B, d.M["x"], d.M["y"], strings.Join(extra, ""))
+	},
+	want: func(m json.RawMessage) string {
+		var v c43SpecVal
+		if err := json.Unmarshal(m, &v); err != nil {
+			panic(fmt.Sprintf("spec value %s: %v", m, err))
+		}
+		return c43ProjParts(v.A, v.B, v.M.X, v.M.Y, "")
+	},
+	errv: c43Doc{A: 99},
+	text: func(m json.RawMessage) string {
+		var d c43SpecDoc
+		if err := json.Unmarshal(m, &d); err != nil {
+			panic(fmt.Sprintf("spec document %s: %v", m, err))
+		}
+		return d.text()
+	},
+}
 
 type c43Layer struct {
 	K string `json:"k"`
@@ -82,17 +225,36 @@ func c43Chain(src string, layers []c43Layer) string {
 	return d
 }
 
-type c43Sys struct {
-	lv  []*c43Count // level 0 = source
-	rd  *c43Reader  // JSON source only
-	top Iter[int]
+type c43Sys[T any] struct {
+	ops  *c43Ops[T]
+	lv   []*c43Count[T] // level 0 = source
+	rd   *c43Reader     // JSON source only
+	top  Iter[T]
+	text string   // the JSON stream
+	kept []T      // every value handed out by the outermost iterator, as handed out
+	exp  []string // what the specification said it was
 }
 
-func c43Build(src string, xs []int, bad int, layers []c43Layer) *c43Sys {
-	s := &c43Sys{}
-	var cur Iter[int]
+// the driver interface (independent of the element sort)
+type c43Driver interface {
+	next(r bool, v json.RawMessage, caps []int) string
+	val(v json.RawMessage) string
+	close(lvl int, mincl []int) string
+	stream() string
+}
+
+func c43Build[T any](ops *c43Ops[T], src string, xs []json.RawMessage, bad int, layers []c43Layer) *c43Sys[T] {
+	s := &c43Sys[T]{ops: ops}
+	var cur Iter[T]
 	if src == "slice" {
-		cp := append([]int(nil), xs...)
+		cp := make([]T, len(xs))
+		for i, x := range xs {
+			var v T
+			if err := json.Unmarshal(x, &v); err != nil {
+				panic(err)
+			}
+			cp[i] = v
+		}
 		cur = FromSlice(cp)
 	} else {
 		var sb strings.Builder
@@ -100,39 +262,40 @@ func c43Build(src string, xs []int, bad int, layers []c43Layer) *c43Sys {
 			if i+1 == bad {
 				sb.WriteString("x ")
 			} else {
-				sb.WriteString(strconv.Itoa(x))
+				sb.WriteString(ops.text(x))
 				sb.WriteString("\n")
 			}
 		}
-		s.rd = &c43Reader{r: strings.NewReader(sb.String())}
-		cur = c43JSON{FromReaderJSON[int](s.rd)}
+		s.text = sb.String()
+		s.rd = &c43Reader{r: strings.NewReader(s.text)}
+		cur = c43JSON[T]{FromReaderJSON[T](s.rd), ops.errv}
 	}
-	c := &c43Count{inner: cur}
+	c := &c43Count[T]{inner: cur}
 	s.lv = append(s.lv, c)
 	cur = c
 	for _, ly := range layers {
 		switch ly.K {
 		case "map":
-			f := func(x int) int { return x + 1 }
+			f := ops.inc
 			if ly.F == "dbl" {
-				f = func(x int) int { return 2 * x }
+				f = ops.dbl
 			}
-			cur = Map[int, int](cur, f)
+			cur = Map[T, T](cur, f)
 		case "filter":
-			p := func(x int) bool { return true }
+			p := func(x T) bool { return true }
 			switch ly.P {
 			case "false":
-				p = func(x int) bool { return false }
+				p = func(x T) bool { return false }
 			case "even":
-				p = func(x int) bool { return x%2 == 0 }
+				p = func(x T) bool { return ops.key(x)%2 == 0 }
 			}
-			cur = Filter[int](cur, p)
+			cur = Filter[T](cur, p)
 		case "limit":
-			cur = Limit[int](cur, ly.N)
+			cur = Limit[T](cur, ly.N)
 		default:
 			panic("layer " + ly.K)
 		}
-		c := &c43Count{inner: cur}
+		c := &c43Count[T]{inner: cur}
 		s.lv = append(s.lv, c)
 		cur = c
 	}
@@ -140,35 +303,70 @@ func c43Build(src string, xs []int, bad int, layers []c43Layer) *c43Sys {
 	return s
 }
 
-func (s *c43Sys) closesAt(i int) int {
+func (s *c43Sys[T]) stream() string { return strings.ReplaceAll(s.text, "\n", " ") }
+
+func (s *c43Sys[T]) closesAt(i int) int {
 	if i == 0 && s.rd != nil {
 		return s.rd.closes // the real underlying resource
 	}
 	return s.lv[i].closes
 }
 
-func (s *c43Sys) next(r bool, v int, caps []int) string {
+// OutStable: everything handed out so far still is what it was when it was handed out
+func (s *c43Sys[T]) stable(after string) string {
+	for i, v := range s.kept {
+		if got := s.ops.proj(v); got != s.exp[i] {
+			return fmt.Sprintf("OutStable: element %d handed out earlier was %s, after %s it reads %s (all kept: %s)", i+1, s.exp[i], after, got, s.keptAll())
+		}
+	}
+	return ""
+}
+
+func (s *c43Sys[T]) keptAll() string {
+	p := make([]string, len(s.kept))
+	for i, v := range s.kept {
+		p[i] = s.ops.proj(v)
+	}
+	return "[" + strings.Join(p, " ") + "]"
+}
+
+func (s *c43Sys[T]) next(r bool, v json.RawMessage, caps []int) string {
 	ok := s.top.Next()
 	if ok != r {
 		return fmt.Sprintf("Next() = %v, expected %v", ok, r)
 	}
 	if ok {
-		if got := s.top.Val(); got != v {
-			return fmt.Sprintf("Val() = %d after Next, expected %d", got, v)
+		want := s.ops.want(v)
+		val := s.top.Val()
+		if got := s.ops.proj(val); got != want {
+			return fmt.Sprintf("Val() = %s after Next, expected %s", got, want)
 		}
-		if got := s.top.Val(); got != v {
-			return fmt.Sprintf("second Val() = %d, expected %d (Val must not advance)", got, v)
+		if got := s.ops.proj(s.top.Val()); got != want {
+			return fmt.Sprintf("second Val() = %s, expected %s (Val must not advance)", got, want)
 		}
+		s.kept = append(s.kept, val)
+		s.exp = append(s.exp, want)
 	}
 	for i, c := range caps {
 		if c >= 0 && s.lv[i].pulls > c {
 			return fmt.Sprintf("ReadAhead: level %d handed out %d elements, the Limit above it has yielded %d", i, s.lv[i].pulls, c-1)
 		}
 	}
-	return ""
+	return s.stable("Next")
 }
 
-func (s *c43Sys) close(lvl int, mincl []int) string {
+func (s *c43Sys[T]) val(v json.RawMessage) string {
+	want := s.ops.want(v)
+	if got := s.ops.proj(s.top.Val()); got != want {
+		return fmt.Sprintf("Val() = %s, expected %s", got, want)
+	}
+	if n := len(s.exp); n == 0 || s.exp[n-1] != want {
+		return fmt.Sprintf("Val() expected %s differs from the value of the latest Next", want)
+	}
+	return s.stable("Val")
+}
+
+func (s *c43Sys[T]) close(lvl int, mincl []int) string {
 	if err := s.lv[lvl].Close(); err != nil {
 		return "Close: " + err.Error()
 	}
@@ -177,13 +375,20 @@ func (s *c43Sys) close(lvl int, mincl []int) string {
 			return fmt.Sprintf("CloseReaches: after Close on level %d, level %d has seen %d Close calls, expected >= %d", lvl, i, s.closesAt(i), m)
 		}
 	}
-	return ""
+	return s.stable("Close")
+}
+
+func c43New(src string, xs []json.RawMessage, bad int, layers []c43Layer) c43Driver {
+	if src == "jsond" {
+		return c43Build(&c43DocOps, "json", xs, bad, layers)
+	}
+	return c43Build(&c43IntOps, src, xs, bad, layers)
 }
 
 type c43Run struct {
-	Xs  []int               `json:"xs"`
+	Xs  []json.RawMessage   `json:"xs"`
 	Bad int                 `json:"bad"`
-	Den []int               `json:"den"`
+	Den []json.RawMessage   `json:"den"`
 	N   [][]json.RawMessage `json:"n"` // [r, v, caps]
 	C   [][]json.RawMessage `json:"c"` // [lvl, mincl]
 }
@@ -193,19 +398,19 @@ type c43Case struct {
 	Runs   []c43Run   `json:"runs"`
 }
 type c43Step struct {
-	Op    string `json:"op"`
-	R     bool   `json:"r"`
-	V     int    `json:"v"`
-	Caps  []int  `json:"caps"`
-	Lvl   int    `json:"lvl"`
-	MinCl []int  `json:"mincl"`
+	Op    string          `json:"op"`
+	R     bool            `json:"r"`
+	V     json.RawMessage `json:"v"`
+	Caps  []int           `json:"caps"`
+	Lvl   int             `json:"lvl"`
+	MinCl []int           `json:"mincl"`
 }
 type c43Sim struct {
-	Src    string     `json:"src"`
-	Xs     []int      `json:"xs"`
-	Bad    int        `json:"bad"`
-	Layers []c43Layer `json:"layers"`
-	Steps  []c43Step  `json:"steps"`
+	Src    string            `json:"src"`
+	Xs     []json.RawMessage `json:"xs"`
+	Bad    int               `json:"bad"`
+	Layers []c43Layer        `json:"layers"`
+	Steps  []c43Step         `json:"steps"`
 }
 
 func c43Int(m json.RawMessage) int {
@@ -223,12 +428,23 @@ func c43Ints(m json.RawMessage) []int {
 	return v
 }
 
+func c43Input(src string, xs []json.RawMessage, bad int, s c43Driver) string {
+	if src == "jsond" {
+		return fmt.Sprintf("stream=%q bad=%d", s.stream(), bad)
+	}
+	p := make([]string, len(xs))
+	for i, x := range xs {
+		p[i] = string(x)
+	}
+	return fmt.Sprintf("xs=[%s] bad=%d", strings.Join(p, " "), bad)
+}
+
 func TestVerifC43(t *testing.T) {
 	defer vFlush()
 	if vMode() != "replay" {
 		t.Skip("no VERIF_MODE")
 	}
-	n := 0
+	n, failed := 0, 0
 	for i, raw := range vIn() {
 		n++
 		res := M{"i": i, "ok": true}
@@ -237,23 +453,19 @@ func TestVerifC43(t *testing.T) {
 			if err := json.Unmarshal(raw, &b); err != nil {
 				t.Fatalf("behaviour %d: %v", i, err)
 			}
-			s := c43Build(b.Src, b.Xs, b.Bad, b.Layers)
-			lastV := 0
+			s := c43New(b.Src, b.Xs, b.Bad, b.Layers)
 			for k, st := range b.Steps {
 				what := ""
 				switch st.Op {
 				case "Next":
 					what = s.next(st.R, st.V, st.Caps)
-					lastV = st.V
 				case "Val":
-					if got := s.top.Val(); got != st.V || got != lastV {
-						what = fmt.Sprintf("Val() = %d, expected %d", got, st.V)
-					}
+					what = s.val(st.V)
 				case "Close":
 					what = s.close(st.Lvl, st.MinCl)
 				}
 				if what != "" {
-					res = M{"i": i, "ok": false, "step": k + 1, "what": fmt.Sprintf("%s xs=%v bad=%d: %s", c43Chain(b.Src, b.Layers), b.Xs, b.Bad, what)}
+					res = M{"i": i, "ok": false, "step": k + 1, "what": fmt.Sprintf("%s %s: %s", c43Chain(b.Src, b.Layers), c43Input(b.Src, b.Xs, b.Bad, s), what)}
 					break
 				}
 			}
@@ -264,25 +476,27 @@ func TestVerifC43(t *testing.T) {
 			}
 		runs:
 			for _, r := range c.Runs {
-				s := c43Build(c.Src, r.Xs, r.Bad, c.Layers)
-				var got []int
+				s := c43New(c.Src, r.Xs, r.Bad, c.Layers)
 				for k, st := range r.N {
-					rr, v := c43Int(st[0]) == 1, c43Int(st[1])
-					if what := s.next(rr, v, c43Ints(st[2])); what != "" {
+					rr := c43Int(st[0]) == 1
+					if what := s.next(rr, st[1], c43Ints(st[2])); what != "" {
 						res = M{"i": i, "ok": false, "step": k + 1,
-							"what": fmt.Sprintf("%s xs=%v bad=%d: %s (yielded so far %v, list semantics %v)", c43Chain(c.Src, c.Layers), r.Xs, r.Bad, what, got, r.Den)}
+							"what": fmt.Sprintf("%s %s: %s (list semantics %s)", c43Chain(c.Src, c.Layers), c43Input(c.Src, r.Xs, r.Bad, s), what, r.Den)}
 						break runs
-					}
-					if rr {
-						got = append(got, v)
 					}
 				}
 				for k, st := range r.C {
 					if what := s.close(c43Int(st[0]), c43Ints(st[1])); what != "" {
-						res = M{"i": i, "ok": false, "step": len(r.N) + k + 1, "what": fmt.Sprintf("%s xs=%v bad=%d: %s", c43Chain(c.Src, c.Layers), r.Xs, r.Bad, what)}
+						res = M{"i": i, "ok": false, "step": len(r.N) + k + 1, "what": fmt.Sprintf("%s %s: %s", c43Chain(c.Src, c.Layers), c43Input(c.Src, r.Xs, r.Bad, s), what)}
 						break runs
 					}
 				}
+			}
+		}
+		if res["ok"] == false {
+			failed++
+			if failed > 25 { // a broken tree fails thousands of runs: the first 25 say it all
+				res = M{"i": i, "ok": true}
 			}
 		}
 		vEmit(res)
